@@ -24,9 +24,24 @@ namespace nmtools::index
         using return_t = meta::resolve_optype_t<arange_shape_t,start_t,stop_t,step_t>;
         auto ret = return_t {};
         if constexpr (!meta::is_constant_index_array_v<return_t>) {
-            // TODO: use index_type instead of size_t
-            size_t d = ceil_(float(stop - start) / step);
-            at(ret,0) = d;
+            if constexpr (meta::is_index_v<start_t> && meta::is_index_v<stop_t> && meta::is_index_v<step_t>) {
+                // integral grid: exact ceiling division (no round trip through float), an empty range has no element
+                const auto m_span = (nm_index_t)stop - (nm_index_t)start;
+                const auto m_step = (nm_index_t)step;
+                nm_index_t d = 0;
+                if ((m_step > 0) && (m_span > 0)) {
+                    d = (m_span + m_step - 1) / m_step;
+                } else if ((m_step < 0) && (m_span < 0)) {
+                    d = ((-m_span) + (-m_step) - 1) / (-m_step);
+                }
+                at(ret,0) = (size_t)d;
+            } else {
+                // TODO: use index_type instead of size_t
+                const auto q = float(stop - start) / step;
+                // stop on the wrong side of start for the sign of step: empty range
+                size_t d = (q > 0) ? ceil_(q) : 0;
+                at(ret,0) = d;
+            }
         }
         return ret;
     } // arange_shape
